@@ -1,14 +1,15 @@
 (* C06 — grants never exceed what the subscriber's money buys (no overdraft). *)
 From Coq Require Import List ZArith Bool.
-From Verif Require Import Charging.Servers Charging.ServersProofs Charging.Chf Charging.ChargeProofs.
+From Verif Require Import Charging.Servers Charging.ServersProofs Charging.Chf Charging.ChargeProofs
+  Charging.HistoryProofs Charging.OverdraftHistory.
 Import ListNotations.
 Open Scope Z_scope.
 
 (* Reserve mode: with money = balance + unconsumed reservation,
      granted = min (floor (min money (requested x cost) / cost), requested)   (0 when nothing is left)
      final-unit indication  <->  money < requested x cost
-   the account never goes below zero and cost x granted is backed by the
-   reservation the CHF holds afterwards. *)
+   the account never goes below zero (nor grows: a reserve round only moves money into the
+   reservation) and cost x granted is backed by the reservation the CHF holds afterwards. *)
 Theorem C06_grant_limited : forall d supi rg x st req used,
   lookup d supi rg = Some x -> q_mode st = 1 -> 0 <= d_quota x ->
   round_ok (d_quota x) (q_reserved st) (cost_of x) used (reqv_of req) ->
@@ -18,7 +19,7 @@ Theorem C06_grant_limited : forall d supi rg x st req used,
     g = Z.min (Z.max 0 (Z.min money (reqv_of req * cost_of x)) / cost_of x) (reqv_of req) /\
     m_fui mu = (money <? reqv_of req * cost_of x) /\
     cost_of x * g <= Z.max 0 (q_reserved st') /\
-    (exists b, bal d' supi rg = Some b /\ 0 <= b).
+    (exists b, bal d' supi rg = Some b /\ 0 <= b <= d_quota x).
 Proof. exact charge_rg_grant. Qed.
 Print Assumptions C06_grant_limited.
 
@@ -47,3 +48,48 @@ Example C06_nonvacuous :
   charge_rg [mkDoc 1 1 0 [50]] 1 1 (mkRg 0 1 0 0) (Some 100) 0 =
   ([mkDoc 1 1 0 [50]], mkRg 0 2 2 1, Some (mkMui 1 (Some 0) true)).
 Proof. vm_compute. reflexivity. Qed.
+
+(* Along every history: if every stored balance starts non-negative, every grant the consumers hold
+   is backed by the reservation the CHF holds for it ([backed]; true of the start of every history,
+   [backed_start]), every credit-control round is within the ranges of the Diameter AVPs
+   ([history_ok], as for C01_history) and no consumer reports more usage for a rating group than the
+   grant last given for it ([history_compliant]: the ghost of last grants follows the answers to the
+   updates and is 0 after a release; the operator never credits an account below zero), then no
+   stored balance is negative at the end -- and, the statement holding for every history, at no
+   point of it.  The hypotheses are decidable ([history_okb], [history_compliantb]) and counted on
+   the harness's histories.  The ghost is kept per subscriber and rating group like the CHF's
+   reservation; with two sessions of one subscriber on one rating group it is not what either
+   consumer was granted (known finding C06/shared-reservation-across-sessions). *)
+Theorem C06_history : forall rsize usize ops G w,
+  nonneg (w_db w) -> backed G w ->
+  history_ok rsize usize w ops -> history_compliant rsize usize G w ops ->
+  nonneg (w_db (run rsize usize w ops)).
+Proof. exact history_no_overdraft. Qed.
+Print Assumptions C06_history.
+
+Theorem C06_history_decidable : forall rsize usize ops d lr,
+  nonnegb d = true ->
+  history_okb rsize usize (mkWorld d [] lr [] []) ops = true ->
+  history_compliantb rsize usize (fun _ _ => 0) (mkWorld d [] lr [] []) ops = true ->
+  nonneg (w_db (run rsize usize (mkWorld d [] lr [] []) ops)).
+Proof. exact history_no_overdraft_b. Qed.
+Print Assumptions C06_history_decidable.
+
+(* non-vacuity: balance 70 at unit cost 2; the consumer asks for 100 units, is granted the 35 the
+   money buys (final unit), reports 30 of them and asks again, then releases reporting 0: the
+   hypotheses hold along the history; the balance ends at 10, the unused reservation refunded *)
+Definition ex_req (used : Z) (req : option Z) : request :=
+  mkReq 1 true (Some [99]) [mkUsage 1 req [mkCont 1 used 0 0 0 0]] [] 0 (-1) 0.
+Definition ex_ops : list op :=
+  [Create (mkReq 1 true (Some [99]) [] [] 0 (-1) 0);
+   Update [99; 45; 48] (ex_req 0 (Some 100));
+   Update [99; 45; 48] (ex_req 30 (Some 100));
+   Release [99; 45; 48] (ex_req 0 None)].
+Example C06_history_nonvacuous :
+  let w := mkWorld [mkDoc 1 1 70 [50]] [] 0 [] [] in
+  let sz := fun _ : record => 0 in let uz := fun _ : list (Z * list entry) => 0 in
+  nonnegb (w_db w) = true /\ history_okb sz uz w ex_ops = true /\
+  history_compliantb sz uz (fun _ _ => 0) w ex_ops = true /\
+  map rs_status (snd (fold_left (fun '(w, acc) o => let '(w', r) := step sz uz w o in (w', acc ++ [r])) ex_ops (w, []))) = [201; 200; 200; 204] /\
+  w_db (run sz uz w ex_ops) = [mkDoc 1 1 10 [50]].
+Proof. vm_compute. repeat split. Qed.
